@@ -164,21 +164,34 @@ structure Delta where
   dGens : Nat := 1
   dStep : Nat := 1
 
+/-- the state in which `Step` tests the stop conditions: objective (re)decorated (`live`), and - once the step
+    monitor is non-empty - limits resolved at this moment -/
+def Ctl.pre (c : Ctl) : Ctl :=
+  if c.nstep = 0 then { c with live := true } else ({ c with live := true } : Ctl).resolve
+
+/-- `if len(self._stepmon): msg = self.Terminated(info=True) or None  else: msg = None` -/
+def Ctl.preMsg (c : Ctl) (termPre : Bool) : Option Msg :=
+  if c.nstep = 0 then none else c.pre.message termPre
+
+/-- the state after `_Step` ran (`d`: its effect on the counters) and `Terminated` resolved the limits again.
+    Powell after its own (possibly deferred) record: generation 0 stays 0, later `len(energy_history)-1 = nstep` -/
+def Ctl.after (c : Ctl) (d : Delta) : Ctl :=
+  ({ c.pre with evals := c.pre.evals + d.dEvals,
+                gens := (if c.pre.powell = true then (if c.pre.nstep = 0 then 0 else c.pre.nstep + d.dStep)
+                         else c.pre.gens + d.dGens),
+                nstep := c.pre.nstep + d.dStep } : Ctl).resolve
+
 /-- `Step()`.  `termPre` / `termPost`: verdict of the termination condition before / after the iteration;
-    `d`: the effect of `_Step` on the counters.  Returns the new control state, the message, and whether `_Step` ran. -/
+    `d`: the effect of `_Step` on the counters.  Returns the new control state, the message, and whether
+    `_Step` ran. -/
 def Ctl.step (c : Ctl) (termPre termPost : Bool) (d : Delta) : Ctl × Option Msg × Bool :=
-  let c0 := { c with live := true }                 -- `_bootstrap_objective`
-  let pre : Option Msg := if c0.nstep = 0 then none else (c0.resolve).message termPre
-  let c1 := if c0.nstep = 0 then c0 else c0.resolve
-  match pre with
-  | some m => (c1, some m, false)
+  match c.preMsg termPre with
+  | some m => (c.pre, some m, false)
   | none =>
-    -- Powell after its own (possibly deferred) record: generation 0 stays 0, later `len(energy_history)-1 = nstep`
-    let g2 := if c1.powell = true then (if c1.nstep = 0 then 0 else c1.nstep + d.dStep) else c1.gens + d.dGens
-    let c2 := { c1 with evals := c1.evals + d.dEvals, gens := g2, nstep := c1.nstep + d.dStep }
-    let c3 := c2.resolve
-    match c3.message termPost with
-    | some m => (c3.finalize, some m, true)
-    | none => (c3, none, true)
+    match (c.after d).message termPost with
+    -- `if self.Terminated(): self.Finalize()` and then `msg = self.Terminated(info=True) or None` AGAIN:
+    -- the returned message is computed on the finalized state (Powell's Finalize moves `generations`)
+    | some _ => ((c.after d).finalize, (c.after d).finalize.message termPost, true)
+    | none => (c.after d, none, true)
 
 end MysticVerif.Solver
